@@ -199,6 +199,39 @@ func hasLoneCR(content []byte) bool {
 	return bytes.Contains(content, []byte("\xc2\x85")) || bytes.Contains(content, []byte("\xe2\x80\xa8")) || bytes.Contains(content, []byte("\xe2\x80\xa9"))
 }
 
+// aliasExpansion: number of nodes of the tree unfolding of the alias graph (what relaxed mode walks: parseNode and
+// unpackNodes re-expand every alias), memoised and saturating.  Class predicate of the open known finding
+// C02-alias-fanout: the unfolding exceeds aliasFanoutLimit nodes (`aN: &aN [*aN-1, *aN-1]` doubles it per level).
+const aliasFanoutLimit = 20_000_000
+
+func aliasExpansion(docs []parser.VerifDoc) int {
+	memo := map[*yaml.Node]int{}
+	var size func(n *yaml.Node, depth int) int
+	size = func(n *yaml.Node, depth int) int {
+		if n == nil || depth > 5000 {
+			return 0
+		}
+		if v, ok := memo[n]; ok {
+			return v
+		}
+		memo[n] = 1 // cycles are C02's other business (5f8fd57)
+		t := 1 + size(n.Alias, depth+1)
+		for _, c := range n.Content {
+			t += size(c, depth+1)
+			if t > 1<<40 {
+				t = 1 << 40
+			}
+		}
+		memo[n] = t
+		return t
+	}
+	total := 0
+	for _, d := range docs {
+		total += size(d.Node, 0)
+	}
+	return total
+}
+
 // coqExpandCases: the real diags.LineRange.Expand on the line ranges of this file's problems plus adversarial ranges
 // (empty, inverted by one, inverted by more: `make([]int, 0, Last-First+1)` panics on a negative capacity).
 func coqExpandCases(id int, observed [][2]int) string {
@@ -447,6 +480,21 @@ func runC02(args []string) int {
 				of.Known = "C02-lone-cr"
 			}
 			o.fails = append(o.fails, of)
+		}
+		if !cyc && aliasExpansion(docs) > aliasFanoutLimit {
+			// known finding C02-alias-fanout: relaxed mode walks the exponential unfolding.  Do not burn minutes: one run
+			// of the real binary in relaxed mode under a short timeout shows the (practical) hang; nothing else is run.
+			o.hist = append(o.hist, "has:alias-fanout", "class:"+it.class)
+			cfg := writeBinConfig(workDir, false, parser.PrometheusSchema, model.UTF8Validation)
+			rc, _, _ := runCmd(workDir, 4*time.Second, nil, os.Getenv("PINT_BIN"), "-c", cfg, "--offline", "-l", "error", "lint", file)
+			if rc == -1 {
+				of := oracleFail{ID: fmt.Sprint(id), What: "binary: pint (relaxed mode) still running after 4 s on a 29-line file whose aliases unfold to more than 20 million nodes (hang)",
+					Case: map[string]any{"content": it.content, "class": it.class, "lines": nl}, Known: "C02-alias-fanout"}
+				o.fails = append(o.fails, of)
+			}
+			os.Remove(file)
+			results[i] = o
+			return
 		}
 		// (a)+(b): correspondence term and in-process pipeline, in a child process
 		rc, so, se := runCmd(workDir, 150*time.Second, nil, self, "C02-one", "--file", file, "--id", fmt.Sprint(id), "--names", fmt.Sprint(int(names)), "--schema", fmt.Sprint(int(schema)))
